@@ -150,7 +150,7 @@ impl MintBuilder {
                         if overwrite {
                             mint.0 = amount.0;
                         } else {
-                            mint.0 += amount.0;
+                            *mint = Self::add_amounts(mint, amount)?;
                         }
                     }
                     _ => {}
@@ -174,7 +174,7 @@ impl MintBuilder {
                         if overwrite {
                             mint.0 = amount.0;
                         } else {
-                            mint.0 += amount.0;
+                            *mint = Self::add_amounts(mint, amount)?;
                         }
                     }
                     _ => {}
@@ -182,6 +182,15 @@ impl MintBuilder {
             }
         }
         Ok(())
+    }
+
+    /// Sum of the accumulated and the added quantity; an error when it leaves the range of `Int`
+    /// (it would otherwise be truncated on serialization).
+    fn add_amounts(current: &Int, amount: &Int) -> Result<Int, JsError> {
+        match current.0.checked_add(amount.0) {
+            Some(sum) if sum >= Int::MIN_VALUE && sum <= Int::MAX_VALUE => Ok(Int(sum)),
+            _ => Err(JsError::from_str("Mint amount overflow")),
+        }
     }
 
     fn validate_mint_witness(
